@@ -92,13 +92,32 @@ fn substitute_term(term: &Term, bindings: &HashMap<String, Term>) -> Term {
     }
 }
 
-fn rename_rule_variables(rule: &Rule, counter: &mut usize) -> Rule {
+fn collect_term_variables(term: &Term, out: &mut std::collections::HashSet<String>) {
+    match term {
+        Term::Variable(v) => {
+            out.insert(v.clone());
+        }
+        Term::Constant(_) => {}
+        Term::QuotedTriple(qt) => {
+            collect_term_variables(&qt.0, out);
+            collect_term_variables(&qt.1, out);
+            collect_term_variables(&qt.2, out);
+        }
+    }
+}
+
+fn rename_rule_variables(
+    rule: &Rule,
+    counter: &mut usize,
+    reserved: &std::collections::HashSet<String>,
+) -> Rule {
     let mut var_map = HashMap::new();
 
     fn rename_term(
         term: &Term,
         var_map: &mut HashMap<String, String>,
         counter: &mut usize,
+        reserved: &std::collections::HashSet<String>,
     ) -> Term {
         match term {
             Term::Variable(v) => {
@@ -106,34 +125,40 @@ fn rename_rule_variables(rule: &Rule, counter: &mut usize) -> Rule {
                 if let Some(new_v) = var_map.get(v) {
                     Term::Variable(new_v.clone())
                 } else {
-                    let new_v = format!("v{}", *counter);
+                    // Fresh names must not collide with names already in use
+                    // by the goal or by the current bindings.
+                    let mut new_v = format!("v{}", *counter);
                     *counter += 1;
+                    while reserved.contains(&new_v) {
+                        new_v = format!("v{}", *counter);
+                        *counter += 1;
+                    }
                     var_map.insert(v.clone(), new_v.clone());
                     Term::Variable(new_v)
                 }
             }
             Term::Constant(c) => Term::Constant(*c),
             Term::QuotedTriple(qt) => Term::QuotedTriple(Box::new((
-                rename_term(&qt.0, var_map, counter),
-                rename_term(&qt.1, var_map, counter),
-                rename_term(&qt.2, var_map, counter),
+                rename_term(&qt.0, var_map, counter, reserved),
+                rename_term(&qt.1, var_map, counter, reserved),
+                rename_term(&qt.2, var_map, counter, reserved),
             ))),
         }
     }
 
     let mut new_premise = Vec::new();
     for p in &rule.premise {
-        let s = rename_term(&p.0, &mut var_map, counter);
-        let p_term = rename_term(&p.1, &mut var_map, counter);
-        let o = rename_term(&p.2, &mut var_map, counter);
+        let s = rename_term(&p.0, &mut var_map, counter, reserved);
+        let p_term = rename_term(&p.1, &mut var_map, counter, reserved);
+        let o = rename_term(&p.2, &mut var_map, counter, reserved);
         new_premise.push((s, p_term, o));
     }
 
     let mut new_conclusions = Vec::new();
     for conclusion in &rule.conclusion {
-        let conclusion_s = rename_term(&conclusion.0, &mut var_map, counter);
-        let conclusion_p = rename_term(&conclusion.1, &mut var_map, counter);
-        let conclusion_o = rename_term(&conclusion.2, &mut var_map, counter);
+        let conclusion_s = rename_term(&conclusion.0, &mut var_map, counter, reserved);
+        let conclusion_p = rename_term(&conclusion.1, &mut var_map, counter, reserved);
+        let conclusion_o = rename_term(&conclusion.2, &mut var_map, counter, reserved);
         new_conclusions.push((conclusion_s, conclusion_p, conclusion_o));
     }
 
@@ -180,8 +205,17 @@ impl Reasoner {
         }
 
         // Match with rules
+        let mut reserved = std::collections::HashSet::new();
+        collect_term_variables(&query.0, &mut reserved);
+        collect_term_variables(&query.1, &mut reserved);
+        collect_term_variables(&query.2, &mut reserved);
+        for (name, term) in bindings {
+            reserved.insert(name.clone());
+            collect_term_variables(term, &mut reserved);
+        }
+
         for rule in &self.rules {
-            let renamed_rule = rename_rule_variables(rule, variable_counter);
+            let renamed_rule = rename_rule_variables(rule, variable_counter, &reserved);
 
             // Try to unify with each conclusion in the rule
             for conclusion in &renamed_rule.conclusion {
